@@ -64,7 +64,9 @@ def tight_sd(rng, sd, dup=False):
     the optimum return then comes as close to the advertised bound as the topology lets it.  dup: the cheap
     exploit is the SECOND definition for its (service, os) pair, the first one costs 3."""
     n = len(sd["subnets"])
-    cfg = lambda a: dict(os=[True], srv=[True], proc=[True], val=1, dval=rng.choice([0, 1]), fw={})   # noqa: E731
+    # discovery values only where a scan can earn them (hosts of public subnets are discovered from the start)
+    cfg = lambda a: dict(os=[True], srv=[True], proc=[True], val=1,   # noqa: E731
+                         dval=0 if sd["topo"][a[0]][0] else rng.choice([0, 1]), fw={})
     hosts = [(a, cfg(a)) for a, _ in sd["hosts"]]
     hm = dict(hosts)
     for a, _ in sd["sens"]:
@@ -90,6 +92,19 @@ def star_sd(k):
                 fw=fw, hosts=hosts, sens=[((s, 0), 100) for s in range(2, n)], limit=None, bounds=(n, 1))
 
 
+def cliques_sd(k):
+    """k public single-host sensitive subnets in two cliques joined only through the internet (no branching:
+    the walk the original computation minimises IS the number of hosts); k + 1 waypoints to permute"""
+    n, half = k + 1, k // 2
+    con = lambda s, t: int(s == t or s == 0 or t == 0 or ((s <= half) == (t <= half)))   # noqa: E731
+    topo = [[con(s, t) for t in range(n)] for s in range(n)]
+    fw = {(s, t): [0] for s in range(n) for t in range(n) if s != t and con(s, t)}
+    hosts = [((s, 0), dict(os=[True], srv=[True], proc=[True], val=100, dval=0, fw={})) for s in range(1, n)]
+    return dict(subnets=[1] * n, topo=topo, nos=1, nsrv=1, nproc=1,
+                exploits=[dict(srv=0, os=None, prob=1.0, cost=1, acc=2)], privescs=[], costs=(1, 1, 1, 1),
+                fw=fw, hosts=hosts, sens=[((s, 0), 100) for s in range(1, n)], limit=None, bounds=(n, 1))
+
+
 def optimum_return(env, max_states=40000):
     """max total reward over episodes of the real environment that end in a goal state
     (draws forced to succeed; only state-changing steps matter because every action costs >= 1)"""
@@ -108,6 +123,7 @@ def optimum_return(env, max_states=40000):
             raise OverflowError
         memo[key] = NEG     # monotone graph: no cycles through state-changing steps
         res = (0.0, []) if env.goal_reached(state) else (NEG, [])
+        loop = None
         for i, a in enumerate(actions):
             if a.prob <= 0:
                 continue
@@ -117,10 +133,15 @@ def optimum_return(env, max_states=40000):
             finally:
                 shim.remove()
             if ns.tensor.tobytes() == key:
+                if rew > 1e-9 and (loop is None or rew > loop[1]):
+                    loop = (i, float(rew))      # a step that changes nothing and still earns: repeatable
                 continue
             sub, path = best(ns)
             if sub != NEG and rew + sub > res[0]:
                 res = (float(rew) + sub, [i] + path)
+        if loop is not None and res[0] != NEG:
+            # the goal is reachable from here and a repeatable step pays: 50 repetitions are already an episode
+            res = (res[0] + 50 * loop[1], [loop[0]] * 50 + res[1])
         memo[key] = res
         return res
     env.reset()
@@ -134,7 +155,8 @@ def run(ctx, spec):
     from nasim.envs.environment import NASimEnv
     out = dict(violations=[], evaluations=0, distinct_nontrivial=0, samples=[], correspondence={})
     # ---- tie: hops and bound on random topologies (chains, stars, trees, cycles, several public subnets)
-    sds = [scen.random_sd(rng, max_subnets=6) for _ in range(n_tie)] + [star_sd(k) for k in (1, 2, 3, 4)]
+    sds = [scen.random_sd(rng, max_subnets=6) for _ in range(n_tie)] + [star_sd(k) for k in (1, 2, 3, 4)] \
+        + [cliques_sd(k) for k in (5, 7, 8)]
     wires = [scen.sd_wire(sd) for sd in sds]
     mo = []
     for i in range(0, len(wires), 25):
